@@ -34,6 +34,15 @@ func commonSweeps(tier string) []sweep {
 		{"P1", rm.Curly, singles(pathAtoms(u)), pathReqs(u.Paths(), u.QMethods, false)},
 		{"P2", rm.Curly, pairs(pathAtoms(us)), crossReqs(us.Paths(), us.QMethods, rs.PathSweepHeaders[:1], false)},
 	}
+	// (P2m) two-route tables over literals of different lengths and with regex metacharacters: the
+	// routers rank by different measures of "how literal" a template is
+	um := rs.Universe{Tokens: []string{"v1.0", "docs", "ab", "a", "{x}", "{y}"}, Roots: []string{"/", "/a"}, MaxSub: 2,
+		Segs: []string{"v1.0", "docs", "ab", "a", "v1x0"}, MaxPath: 3, RMethods: []string{"GET", "POST"}, QMethods: []string{"GET", "POST", "PUT"}}
+	if tier == "thorough" {
+		um.Tokens = append(um.Tokens, "v1.0.1", "archive")
+		um.Segs = append(um.Segs, "v1.0.1", "archive")
+	}
+	out = append(out, sweep{"P2m", rm.Curly, pairs(pathAtoms(um)), crossReqs(um.Paths(), um.QMethods, rs.PathSweepHeaders[:1], false)})
 	hu := rs.QuickHeaders()
 	if tier == "thorough" {
 		hu = rs.ThoroughHeaders()
@@ -72,13 +81,51 @@ func f12(path string, curly, jsr rs.Outcome) bool {
 	return nonCanonical(path) && jsr.Status == 404 && len(jsr.Invoked) == 0 && curly.Status != 404 && curly.Panic == "" && jsr.Panic == ""
 }
 
+// f17: signature of the recorded finding F17 - two eligible routes of one WebService neither of
+// which is less specific than the other (e.g. /aa/{x} and /{y}/b for GET /aa/b): RouterJSR311
+// ranks by the number of literal characters and picks the one with more of them, CurlyRouter
+// ranks by the number of literal segments (then by path text) and picks the other.
+func f17(p *rm.Parsed, curly, jsr rs.Outcome) bool {
+	if len(curly.Invoked) != 1 || len(jsr.Invoked) != 1 || curly.Panic != "" || jsr.Panic != "" {
+		return false
+	}
+	cs, cr, ok1 := p.RouteByID(curly.Invoked[0].ID)
+	js, jr, ok2 := p.RouteByID(jsr.Invoked[0].ID)
+	if !ok1 || !ok2 || cs != js || cr == jr {
+		return false
+	}
+	ct, jt := p.Full[cs][cr], p.Full[js][jr]
+	lit := func(toks []rm.Tok) (chars, segs int) {
+		for _, t := range toks {
+			if t.Kind == rm.Lit {
+				chars += len(t.Text)
+				segs++
+			}
+		}
+		return
+	}
+	cc, cn := lit(ct)
+	jc, jn := lit(jt)
+	return jc > cc && cn >= jn && !rm.LessSpecificRoute(ct, jt) && !rm.LessSpecificRoute(jt, ct)
+}
+
+func c18Finding(p *rm.Parsed, path string, curly, jsr rs.Outcome) string {
+	switch {
+	case f12(path, curly, jsr):
+		return "F12"
+	case f17(p, curly, jsr):
+		return "F17"
+	}
+	return ""
+}
+
 func replayC18(rc routingCase, o rs.Outcome) error {
 	b2 := rs.Build(rc.Table, rs.BuildOpt{Router: rm.JSR311})
 	o2 := b2.Do(rc.Req.HTTP(), h.NewRec(), false)
 	fmt.Printf("RouterJSR311: %s\n", o2.Key())
 	if o.Key() != o2.Key() {
-		if f12(rc.Req.Path(), o, o2) {
-			fmt.Println("(matches the recorded finding F12)")
+		if f := c18Finding(rm.Parse(rc.Table), rc.Req.Path(), o, o2); f != "" {
+			fmt.Printf("(matches the recorded finding %s)\n", f)
 		}
 		return fmt.Errorf("CurlyRouter -> %s, RouterJSR311 -> %s", o.Key(), o2.Key())
 	}
@@ -117,10 +164,7 @@ func checkC18(run *h.Run) {
 				}
 				kc, kj := oc.Key(), oj.Key()
 				if kc != kj {
-					finding := ""
-					if f12(path, oc, oj) {
-						finding = "F12"
-					}
+					finding := c18Finding(p, path, oc, oj)
 					rc := routingCase{Sweep: sp.Name, Router: "curly", Table: t, Req: w.reqs[qi], Observed: oc, Other: oj}
 					qi := qi
 					run.Violate("routers-disagree", finding, fmt.Sprintf("%v ; %v : CurlyRouter -> %s, RouterJSR311 -> %s", t, w.reqs[qi], kc, kj), rc, func() bool {
